@@ -36,6 +36,33 @@ def gen_cases(ctx):
             for outs in ("E" * (th + 1) + "OOEO", "P" * (th + 2) + "O", "EO" + "E" * (th + 1) + "OPO"):
                 cid += 1
                 cases.append({"id": cid, "threshold": th, "recover_ns": rec, "mock": cid % 2 == 0, "outs": outs})
+    # thresholds at the top of the uint64 range ("never trip"): no arithmetic on the threshold may wrap
+    for th in (2**64 - 1, 2**64 - 2, 2**63, 2**63 - 1, 2**32):
+        for outs in ("EEEEEO", "PEPEPEE", "EOEEEEOE"):
+            for rec in (HOUR, 2**63 - 1):
+                cid += 1
+                cases.append({"id": cid, "threshold": th, "recover_ns": rec, "mock": cid % 2 == 0, "outs": outs,
+                              "family": "huge-threshold"})
+    # callers whose own context is already cancelled or past its deadline when the forwarded call fails:
+    # a failure is a failure whoever still waits for it (the downstream is scripted and ignores the context)
+    for th in (0, 1, 2, 3):
+        for kinds in ("c", "d", "cd", "bc"):
+            for fail in ("E", "P", "EP"):
+                trip = "".join(fail[i % len(fail)] for i in range(th + 1))
+                outs = trip + "OO" + trip + "E" + "O"
+                ctxs = "".join(kinds[i % len(kinds)] for i in range(len(outs)))
+                cid += 1
+                cases.append({"id": cid, "threshold": th, "recover_ns": HOUR, "mock": cid % 2 == 0, "outs": outs, "ctxs": ctxs,
+                              "family": "done-context"})
+    n_ctx = 40 if quick else 400
+    for _ in range(n_ctx):
+        cid += 1
+        th = ctx.rng.choice([0, 1, 2, 3, 5])
+        L = ctx.rng.randint(6, 30)
+        outs = "".join(ctx.rng.choices("OEP", weights=(1, 3, 1), k=L))
+        ctxs = "".join(ctx.rng.choices("bcd", weights=(2, 1, 1), k=L))
+        cases.append({"id": cid, "threshold": th, "recover_ns": ctx.rng.choice([1, HOUR]), "mock": ctx.rng.random() < 0.5,
+                      "outs": outs, "ctxs": ctxs, "family": "done-context"})
     # probes inside the open window must not postpone recovery: trip, probe at 0.6 x recover (rejected),
     # probe at 1.2 x recover after the LAST REAL failure (forwarded), and again after a failing trial call
     for th in (0, 1, 2):
